@@ -5462,18 +5462,30 @@ evdns_cache_lookup(struct evdns_base *base,
 	find.name = (char *)nodename;
 	cache = SPLAY_FIND(evdns_tree, &base->cache_root, &find);
 	if (cache) {
-		struct evutil_addrinfo *e = cache->ai;
+		struct evutil_addrinfo *e = cache->ai, *prev = NULL;
 		log(EVDNS_LOG_DEBUG, "Found cache for %s", cache->name);
-		for (; e; e = e->ai_next) {
+		for (; e; prev = e, e = e->ai_next) {
 			struct evutil_addrinfo *ai_new;
+			struct sockaddr_storage ss;
 			// an existing record might not have the canonname
 			if (want_cname && e->ai_canonname == NULL)
+				continue;
+			/* The cached list has one entry per socket type for
+			 * every address; the hints decide afresh which socket
+			 * types the answer gets. */
+			if (prev && prev->ai_addrlen == e->ai_addrlen &&
+			    !memcmp(prev->ai_addr, e->ai_addr, e->ai_addrlen))
 				continue;
 			++n_found;
 			if ((e->ai_addr->sa_family == AF_INET && f == PF_INET6) ||
 				(e->ai_addr->sa_family == AF_INET6 && f == PF_INET))
 				continue;
-			ai_new = evutil_new_addrinfo_(e->ai_addr, e->ai_addrlen, hints);
+			if (e->ai_addrlen > sizeof(ss))
+				continue;
+			/* the port goes into every entry made from this address */
+			memcpy(&ss, e->ai_addr, e->ai_addrlen);
+			sockaddr_setport((struct sockaddr *)&ss, port);
+			ai_new = evutil_new_addrinfo_((struct sockaddr *)&ss, e->ai_addrlen, hints);
 			if (!ai_new) {
 				n_found = 0;
 				goto out;
@@ -5481,7 +5493,6 @@ evdns_cache_lookup(struct evdns_base *base,
 			if (want_cname) {
 				ai_new->ai_canonname = mm_strdup(e->ai_canonname);
 			}
-			sockaddr_setport(ai_new->ai_addr, port);
 			ai = evutil_addrinfo_append_(ai, ai_new);
 		}
 	}
@@ -5732,16 +5743,20 @@ evdns_getaddrinfo_fromhosts(struct evdns_base *base,
 	for (e = find_hosts_entry(base, nodename, NULL); e;
 	    e = find_hosts_entry(base, nodename, e)) {
 		struct evutil_addrinfo *ai_new;
+		struct sockaddr_storage ss;
 		++n_found;
 		if ((e->addr.sa.sa_family == AF_INET && f == PF_INET6) ||
 		    (e->addr.sa.sa_family == AF_INET6 && f == PF_INET))
 			continue;
-		ai_new = evutil_new_addrinfo_(&e->addr.sa, e->addrlen, hints);
+		/* the port goes into every entry made from this address (there
+		 * are two of them when the hints leave the socket type open) */
+		memcpy(&ss, &e->addr, e->addrlen);
+		sockaddr_setport((struct sockaddr *)&ss, port);
+		ai_new = evutil_new_addrinfo_((struct sockaddr *)&ss, e->addrlen, hints);
 		if (!ai_new) {
 			n_found = 0;
 			goto out;
 		}
-		sockaddr_setport(ai_new->ai_addr, port);
 		ai = evutil_addrinfo_append_(ai, ai_new);
 	}
 	EVDNS_UNLOCK(base);
